@@ -166,3 +166,22 @@ package objectcore
 //@   opt wide=272
 //@   valid (dbVal.neg ==> leval(dbVal.mag, 0, 4) != 0) && (fltVal.neg ==> leval(fltVal.mag, 0, 4) != 0)
 //@   ensures [numeric_comparison_of_the_values] result == ite(matcher == object.MatchNumGT, valOf(dbVal.neg, leval(dbVal.mag, 0, 4)) > valOf(fltVal.neg, leval(fltVal.mag, 0, 4)), ite(matcher == object.MatchNumGE, valOf(dbVal.neg, leval(dbVal.mag, 0, 4)) >= valOf(fltVal.neg, leval(fltVal.mag, 0, 4)), ite(matcher == object.MatchNumLT, valOf(dbVal.neg, leval(dbVal.mag, 0, 4)) < valOf(fltVal.neg, leval(fltVal.mag, 0, 4)), valOf(dbVal.neg, leval(dbVal.mag, 0, 4)) <= valOf(fltVal.neg, leval(fltVal.mag, 0, 4)))))
+
+// The search handler is fed the keys of one attribute index in ascending order and answers
+// "go on" (true) or "stop" (false). Besides an error and a full page, stopping is justified
+// only when no later key can match any more: the filter that just failed on the primary
+// attribute is an upper bound (NUM_LT / NUM_LE), or it is the equality / prefix filter the
+// iteration was positioned by (the first one). A failed lower bound, a failed != and a
+// failed equality / prefix filter that did not position the iteration say nothing about the
+// keys that follow.
+//@ func invalidMetaBucketKeyErr
+//@   assigns nothing
+//@   ensures [is_an_error] result != nil
+// The deferred function only publishes the cursor (UpdatedSearchCursor); the matching
+// helpers read their arguments.
+//@ callrule c03_handler_collaborators in MetaDataKVHandler$1
+//@   callee object.MetaDataKVHandler$1$1, object.convertFilterValue, object.IsIntegerSearchOp, object.intBytesMatch, object.combineValues, object.matchValues, object.splitValOID, (object.SearchFilter).*, (*object.SearchFilter).*, (object.AttributeGetter).Get, signed256.ParseDecimal, object.parseNumericFilterValue, object.intMatches, object.RestoreIntAttribute, object.restoreAttributeValue, dynamic:*
+//@   pureeffect
+//@   assigns SearchResult.UpdatedSearchCursor
+//@ func MetaDataKVHandler$1
+//@   ensures [stops_only_when_no_later_key_can_match] !result && resHolder.Err == nil && !deref(more) ==> mch == object.MatchNumLT || mch == object.MatchNumLE || (i == 0 && (mch == object.MatchStringEqual || mch == object.MatchCommonPrefix))
